@@ -101,6 +101,19 @@ pub enum RStep {
     ReadToEnd,
 }
 
+/// Offsets at the edge of the integer ranges (compared on everything except OS file handles,
+/// whose lseek rejects offsets above i64::MAX where a cursor accepts them).
+pub fn extreme_reader_steps() -> Vec<RStep> {
+    vec![
+        RStep::Seek(SeekFrom::Start(u64::MAX)),
+        RStep::Seek(SeekFrom::Start(u64::MAX - 2)),
+        RStep::Seek(SeekFrom::Current(i64::MAX)),
+        RStep::Seek(SeekFrom::Current(i64::MIN)),
+        RStep::Seek(SeekFrom::End(i64::MAX)),
+        RStep::Seek(SeekFrom::End(i64::MIN)),
+    ]
+}
+
 pub fn reader_steps(len: i64) -> Vec<RStep> {
     vec![
         RStep::Read(0),
@@ -215,7 +228,10 @@ pub struct HStats {
 /// Every reader script of exactly `depth` steps (hence every shorter one as a prefix) on a
 /// fresh handle, call by call against `Cursor<&[u8]>`.
 pub fn reader_scripts(property: &str, b: HB, content: &[u8], depth: usize, opener: &(dyn Fn(&Live) -> Result<Box<dyn vfs::SeekAndRead + Send>, String> + Sync)) -> (HStats, Vec<Violation>) {
-    let steps = reader_steps(content.len() as i64);
+    let mut steps = reader_steps(content.len() as i64);
+    if !b.is_phys() {
+        steps.extend(extreme_reader_steps());
+    }
     let n = steps.len();
     let total = n.pow(depth as u32);
     let results: Vec<(u64, BTreeMap<String, u64>, Vec<Violation>)> = (0..n)
@@ -617,12 +633,25 @@ pub fn lengths_and_buffers(property: &str, backends: &[HB], lens: &[usize], bufs
                     let mut want = content.clone();
                     want.extend_from_slice(b"\xfe\xfd");
                     check(&live.file, &want, "the file after append", &mut vio);
+                    // sessions on one path must not reach the bytes of a copy made earlier
+                    if m.exists().unwrap_or(false) {
+                        check(&m, &content, "the earlier copy after an append to the original", &mut vio);
+                    }
                 }
                 Err(e) => vio.push(mk("append-failed", e.display)),
             }
             // truncating overwrite
             match PathApi::write_file(&live.file, b"t") {
-                Ok(()) => check(&live.file, b"t", "the file after a truncating create_file", &mut vio),
+                Ok(()) => {
+                    check(&live.file, b"t", "the file after a truncating create_file", &mut vio);
+                    if m.exists().unwrap_or(false) {
+                        check(&m, &content, "the earlier copy after the original was overwritten", &mut vio);
+                    }
+                    // and the other way round: a session on the copy leaves the original alone
+                    if PathApi::append(&m, b"\xfc").is_ok() {
+                        check(&live.file, b"t", "the original after an append to the copy", &mut vio);
+                    }
+                }
                 Err(e) => vio.push(mk("overwrite-failed", e.display)),
             }
             (evals, vio)
